@@ -198,6 +198,7 @@ func (vc *VC) doCall(c *ssa.CallCommon, v ssa.Value, st *State, pos token.Pos) *
 			vc.callPreHit[i]++
 		}
 	}
+	vc.tokTransfers(key, fn, st, pos)
 	if h := vc.specialCall(key, c, args, v, st, pos); h != nil {
 		return h
 	}
@@ -340,6 +341,7 @@ func (vc *VC) applyContract(fc *FuncContract, fn *ssa.Function, c *ssa.CallCommo
 	for _, e := range fc.GhostDefs {
 		vc.addFact("assume", imp(vc.guard(), vc.trBool(e.E, post)))
 	}
+	vc.tokCall(fc, fn, c, args, names, res, env, post, st, pos)
 	return res
 }
 
@@ -453,7 +455,8 @@ func (vc *VC) modRegions(fc *FuncContract, env *Env) (regions []modRegion, all b
 	ar := vc.ar
 	for _, m := range fc.Modifies {
 		if m == "all" {
-			return nil, true
+			all = true
+			continue
 		}
 		e, err := ParseExpr(m)
 		if err != nil {
@@ -535,7 +538,7 @@ func (vc *VC) modRegions(fc *FuncContract, env *Env) (regions []modRegion, all b
 		}
 		vc.unsupportedf("modifies target %q", m)
 	}
-	return regions, false
+	return regions, all
 }
 
 // fieldHolder: location of the struct that directly contains field `name` reached from a.
@@ -567,6 +570,12 @@ func (vc *VC) applyModifies(fc *FuncContract, env *Env, st *State) {
 	regions, all := vc.modRegions(fc, env)
 	if all {
 		vc.havocAll(st)
+		// owned ghost variables are only changed when listed explicitly next to "all"
+		for _, r := range regions {
+			if strings.HasPrefix(r.key, "#ghost.") {
+				vc.havocKey(st, r.key)
+			}
+		}
 		return
 	}
 	byKey := map[string][]modRegion{}
@@ -617,12 +626,15 @@ func (vc *VC) frameCheck(st *State, pos token.Pos) {
 		byKey[r.key] = append(byKey[r.key], r)
 	}
 	for _, k := range sortedKeys(st.heap) {
-		elem := vc.heapElem[k]
-		entry := vc.heapGet(vc.entrySt, k, elem)
-		if st.heap[k] == entry {
+		if strings.HasPrefix(k, "#box") || strings.HasPrefix(k, "#iter") || k == tokKey || k == freshKey {
 			continue
 		}
-		if strings.HasPrefix(k, "#box") || strings.HasPrefix(k, "#iter") {
+		elem := vc.heapElem[k]
+		if elem == nil {
+			continue
+		}
+		entry := vc.heapGet(vc.entrySt, k, elem)
+		if st.heap[k] == entry {
 			continue
 		}
 		vc.oblige("frame", k, vc.frameCond(k, st.heap[k], byKey[k], false), pos)
@@ -741,7 +753,9 @@ func (vc *VC) builtin(b *ssa.Builtin, c *ssa.CallCommon, v ssa.Value, st *State,
 				pt := fa.X.Type().Underlying().(*types.Pointer).Elem()
 				if vc.prog.singleCloseSite(fieldKey(pt, fa.Field)) && vc.loopContaining(vc.cur) == nil {
 					vc.assumeNote("a channel field with a single close site in the module is not closed by anyone else")
-					vc.assume(vc.guard(), eq(vc.heapRead(st, "#closed", B, ch.S), vc.heapRead(vc.entrySt, "#closed", B, ch.S)))
+					// (a channel made during this activation has not been closed at all yet)
+					vc.assume(vc.guard(), eq(vc.heapRead(st, "#closed", B, ch.S),
+						ite(sx("<", sx("rt", ch.S), vc.entrySt.nextId), vc.heapRead(vc.entrySt, "#closed", B, ch.S), "false")))
 				}
 			}
 		}
